@@ -508,20 +508,21 @@ Definition kv_apply (st : kvstore) (m : cmsg) : option (value * kvstore) :=
   | _, _ => None
   end.
 
-(* operations of a history, in invocation order *)
-Fixpoint find_res (c : node) (pos : nat) (h : list hevent) : option (nat * value) :=
-  match h with
-  | [] => None
-  | HRes c' v :: h' => if Nat.eqb c c' then Some (pos, v) else find_res c (S pos) h'
-  | HInv c' _ :: h' => if Nat.eqb c c' then None else find_res c (S pos) h'
+(* operations of a history, in invocation order: an invocation opens an operation of its client, a response
+   closes the client's open operation (histories of the system are well formed: per client, invocations and
+   responses alternate) *)
+Definition set_res (c : node) (t : nat) (v : value) (o : op) : op :=
+  match op_res o with
+  | None => if Nat.eqb (op_client o) c then mkOp (op_client o) (op_msg o) (op_inv o) (Some (t, v)) else o
+  | Some _ => o
   end.
-Fixpoint ops_from (pos : nat) (h : list hevent) : list op :=
-  match h with
-  | [] => []
-  | HInv c m :: h' => mkOp c m pos (find_res c (S pos) h') :: ops_from (S pos) h'
-  | HRes _ _ :: h' => ops_from (S pos) h'
+Definition ops_step (acc : list op * nat) (e : hevent) : list op * nat :=
+  match e with
+  | HInv c m => (List.app (fst acc) [mkOp c m (snd acc) None], S (snd acc))
+  | HRes c v => (map (set_res c (snd acc) v) (fst acc), S (snd acc))
   end.
-Definition ops_of (h : list hevent) : list op := ops_from 0 h.
+Definition ops_of (h : list hevent) : list op := fst (fold_left ops_step h ([], 0)).
+
 
 (* o may be linearized next among the remaining operations `rest`: no remaining operation
    responded before o was invoked *)
